@@ -1266,21 +1266,66 @@ def species_order(pkg):
     one), layers = [key IR | None, ...] of the nested sorted(..) calls from the outermost inwards and members = the collection
     the innermost one sorts."""
     fn = pkg.method("Network", "species")
-    fl = Flow(fn, NETF, resolver=class_resolver(pkg, "Network"))
+    fl = Flow(fn, NETF, resolver=class_resolver(pkg, "Network"), func_resolver=lambda name: pkg.functions.get((NETF, name)))
     memo = {f.target: simp(f.value) for f in fl.facts if f.kind == "attrstore" and f.extra.get("obj") == SELF}
     out = []
     for f in fl.facts:
         if f.kind != "return":
             continue
-        v = _unwrap_seq(simp(f.value))
+        # (simplified twice: a rewrite that yields a new comprehension -- list(map(f, X)) -- exposes it to the comprehension rules)
+        v = _unwrap_seq(_through_helpers(pkg, simp(simp(f.value))))
         if v[0] == "attr" and v[1] == SELF and v[2] in memo:
-            v = _unwrap_seq(memo[v[2]])
+            v = _unwrap_seq(_through_helpers(pkg, memo[v[2]]))
         layers = []
         while v[0] == "call" and v[1] == ("global", "sorted") and len(v[2]) == 1 and not (set(dict(v[3])) - {"key"}):
             layers.append(dict(v[3]).get("key"))
-            v = _unwrap_seq(v[2][0])
+            v = _unwrap_seq(_through_helpers(pkg, v[2][0]))
         out.append((f, layers, v))
     return fn, fl, out
+
+
+def _through_helpers(pkg, v, depth=0):
+    """A value that is the call of a helper the flow could not inline (a function of network.py or a method of Network that loops,
+    fills a table, sorts a local copy in place ..) is what that helper returns for these arguments: the helper is read on its own
+    and its parameters are replaced by the arguments.  Anything else -- and a helper with several / conditional returns, *args,
+    a parameter it re-binds -- is returned unchanged (the caller then does not understand it)."""
+    from ..valueflow import subst as vsubst
+    while depth < 3:
+        w = _unwrap_seq(v)
+        g = args = kws = None
+        bare = False
+        if w[0] == "call" and w[1][0] == "global":
+            g, args, kws, bare = pkg.functions.get((NETF, w[1][1])), w[2], w[3], True
+        elif w[0] == "meth" and w[1] in (SELF, ("param", "cls")):
+            g, args, kws = pkg.resolve("Network", w[2])[1], w[3], w[4]
+        if g is None or g.args.vararg or g.args.kwarg or g.args.kwonlyargs or any(a[0] == "star" for a in args) or any(k == "**" for k, _ in kws):
+            return v
+        decs = {ast.unparse(d) for d in g.decorator_list}
+        if decs - {"staticmethod", "classmethod"}:
+            return v
+        params = [a.arg for a in g.args.args]
+        bind = {}
+        if not bare and "staticmethod" not in decs:
+            if not params:
+                return v
+            bind[("param", params[0])] = w[1]
+            params = params[1:]
+        if len(args) > len(params) or any(k not in params for k, _ in kws):
+            return v
+        bind.update({("param", p_): a for p_, a in zip(params, args)})
+        bind.update({("param", k): a for k, a in kws})
+        if any(("param", p_) not in bind for p_ in params):
+            return v                                    # a default is used: not followed
+        stored = {n.id for n in ast.walk(g) if isinstance(n, ast.Name) and isinstance(n.ctx, (ast.Store, ast.Del))}
+        if stored & set(params):
+            return v
+        gfl = Flow(g, NETF, resolver=class_resolver(pkg, "Network"), func_resolver=lambda name: pkg.functions.get((NETF, name)))
+        rets = [f for f in gfl.facts if f.kind == "return"]
+        if len(rets) != 1 or rets[0].guards or rets[0].loops:
+            return v
+        v = simp(vsubst(simp(rets[0].value), bind))
+        depth += 1
+    return v
 
 
 def _is_chain(v):
@@ -1331,13 +1376,46 @@ def union_operands(v):
     return [v]
 
 
-def _total_key(k):
-    """a sort key under which no two different species tie: no key at all (the species' own order), or a function returning a
-    tuple that ends in the species itself (or its name)"""
+def _key_verdict(k):
+    """'ok' for a sort key under which no two different species tie: no key at all (the species' own order), or a function whose
+    result is / holds as a tuple component the species itself or its name;  'bad' for a key that is understood and under which
+    different species do tie: every component is a count / table look-up / an attribute other than the name;  else 'unrec'"""
     if k is None:
+        return "ok"
+    if k[0] != "lambda" or len(k[1]) != 1:
+        return "unrec"
+    x = k[1][0]
+    comps = list(k[2][1]) if k[2][0] == "tuple" and not any(e[0] == "star" for e in k[2][1]) else [k[2]]
+    if any(c in (x, ("attr", x, "name")) for c in comps):
+        return "ok"
+
+    def coarse(c):
+        """a value many species share: a number of things, an entry of a table of such, a flag / charge / derived attribute"""
+        if c[0] == "const":
+            return True
+        if c[0] == "call" and c[1] == ("global", "len") and len(c[2]) == 1:
+            return True
+        if c[0] == "sub" or (c[0] == "meth" and c[2] in ("__getitem__", "get", "count")):
+            return True
+        if c[0] == "attr" and c[1] == x and c[2] not in ("name", "_name"):
+            return True
+        if c[0] == "unop" and c[1] == "USub":
+            return coarse(c[2])
+        return False
+    return "bad" if comps and all(coarse(c) for c in comps) else "unrec"
+
+
+def _total_key(k):
+    return _key_verdict(k) == "ok"
+
+
+def _hash_ordered(v):
+    """the value is (a list made by iterating) a set that nothing sorted: its order is the set's iteration order"""
+    v = _unwrap_seq(v)
+    if _setness(v) == "set" and v[0] != "comp":
         return True
-    if k[0] == "lambda" and len(k[1]) == 1 and k[2][0] == "tuple" and k[2][1]:
-        return k[2][1][-1] in (k[1][0], ("attr", k[1][0], "name"))
+    if v[0] == "comp" and v[1] in ("list", "gen", "set") and len(v[3]) == 1 and v[3][0][0] is not None:
+        return v[1] == "set" or _hash_ordered(v[3][0][1])
     return False
 
 
@@ -1349,6 +1427,8 @@ def _setness(v):
         return "set"
     if k == "set" or (k == "comp" and v[1] == "set"):
         return "set"
+    if k == "comp" and v[1] in ("list", "gen") and len(v[3]) == 1 and v[3][0][0] is not None and v[2] == v[3][0][0] and _setness(_unwrap_seq(v[3][0][1])) == "set":
+        return "set"            # [s for s in <set> if ..]: a selection of the members of a set holds none of them twice
     if k == "attr" and v[1] == SELF and v[2] in ("_reactants", "_products"):
         return "set"
     if k == "binop" and v[1] in ("BitOr", "BitAnd", "Sub", "BitXor"):
@@ -1381,14 +1461,12 @@ def _r9(ctx, pkg):
     # the value handed out is sorted(.., key=K) with K total.  VIOLATION only for a key (or an unsorted collection) that is understood
     verdicts = []
     for f, layers, members in rets:
-        if layers and layers[0] is not None and layers[0][0] == "lambda":
-            verdicts.append("ok" if _total_key(layers[0]) else "bad")
-        elif layers and layers[0] is not None:
-            verdicts.append("unrec")                # a key function that is not defined here
+        if layers and layers[0] is not None:
+            verdicts.append(_key_verdict(layers[0]))  # a key function that is not defined here / not understood: unrec
         elif layers:
             verdicts.append("bad")                  # sorted(..) without the connectivity / species key
         else:
-            verdicts.append("unrec" if _opaque(members) else "bad")
+            verdicts.append("bad" if _hash_ordered(members) else "unrec")      # a set handed out as it iterates / something else
     key = "Network.species:total order"
     if "bad" not in verdicts and "unrec" in verdicts:
         ctx.unrec("R9", key, (NETF, fn.lineno), f"what Network.species returns is not understood: {found}")
@@ -1403,9 +1481,9 @@ def _r9(ctx, pkg):
     verdicts = []
     for f, layers, members in rets:
         if len(layers) >= 2:
-            verdicts.append("ok" if _total_key(layers[1]) else "bad" if layers[1][0] == "lambda" else "unrec")
+            verdicts.append(_key_verdict(layers[1]))
         else:
-            verdicts.append("unrec" if _opaque(members) else "bad")
+            verdicts.append("bad" if _hash_ordered(members) else "unrec")
     key = "Network.species:sorted input"
     where = (NETF, rets[0][0].line)
     if "bad" not in verdicts and "unrec" in verdicts:
